@@ -233,6 +233,31 @@ var kinds = []*attackKind{
 			})})
 		},
 	},
+	{
+		// a DNAME record owned OUTSIDE evil.test. in the answer section: above
+		// the zone (it would redirect the question itself) or beside it (dead
+		// weight that the cache's "keep every DNAME" rule could retain)
+		Name: "answer-foreign-dname", Family: "answer", Variants: []string{"upward-tld", "sideways-victim"},
+		Trigger: q("www.evil.test.", dns.TypeA),
+		Install: func(w *world, c *CaseSpec) {
+			onAll(w, authsim.Rule{Name: "www.evil.test.", Action: authsim.Tamper(c.Label, func(q, honest *dns.Msg) *dns.Msg {
+				if len(honest.Answer) == 0 {
+					return honest
+				}
+				dn := func(owner string) dns.RR {
+					return &dns.DNAME{Hdr: hdr(owner, dns.TypeDNAME, evilTTL), Target: "dname.evil-marker.invalid."}
+				}
+				if c.Variant == "sideways-victim" {
+					honest.Answer = append(honest.Answer, dn(zVictim))
+					return honest
+				}
+				// no synthesized CNAME: that record would be owned inside
+				// evil.test. and therefore the attacker's to publish
+				honest.Answer = []dns.RR{dn(zTLD)}
+				return honest
+			})})
+		},
+	},
 	// ------------------------------------------------------------ authority --
 	{
 		Name: "authority-positive", Family: "authority", Variants: []string{"to-evil", "to-sink"},
